@@ -89,7 +89,7 @@ func main() {
 			}
 		}()
 		env := rules.NewEnv(run)
-		spec.Run(env)
+		rules.RunSpec(env, *prop, spec)
 		if *tier == "thorough" {
 			rules.Thorough(env, *prop, spec)
 		}
@@ -145,7 +145,7 @@ func explain(args []string) {
 				run.Unknown("core", "checker-panic", "", fmt.Sprint(e))
 			}
 		}()
-		spec.Run(rules.NewEnv(run))
+		rules.RunSpec(rules.NewEnv(run), rp.Property, spec)
 	}()
 	fmt.Printf("on the current tree (%s), rule %s:\n", repo, rp.Rule)
 	hit := false
